@@ -191,7 +191,7 @@ DE43_TEXTS = [
 ]
 
 NUM_VARIANTS = 5
-DEC_VARIANTS = 4
+DEC_VARIANTS = 8
 DATE_DAYS = [(1, 1, 0, 0, 0), (2, 28, 12, 30, 59), (12, 31, 23, 59, 59), (2, 29, 6, 7, 8)]
 
 
@@ -214,6 +214,14 @@ def decimal_value(width, idx):
         return decimal.Decimal('0.01')
     if idx == 2:
         return decimal.Decimal('9' * (width - 3) + '.99')
+    if idx == 4:
+        return decimal.Decimal('1E+3')              # prints in scientific notation with str()
+    if idx == 5:
+        return decimal.Decimal('2500').normalize()  # Decimal('2.5E+3')
+    if idx == 6:
+        return decimal.Decimal('0.000001')
+    if idx == 7:
+        return decimal.Decimal('7E+0')
     return decimal.Decimal('12.5')
 
 
